@@ -40,6 +40,10 @@ def keyShape : List (Nat × J) → Bool
   | [(0, .null)] => true
   | _ => false
 
+/-- the key entry of an object with a key field -/
+def isKeyEntry (kv : Nat × J) : Bool :=
+  kv.1 == 0 && (match kv.2 with | .sc _ => true | .null => true | _ => false)
+
 def _root_.TM.J.isNull : J → Bool
   | .null => true
   | _ => false
@@ -75,18 +79,21 @@ def conforms (σ : Schema) : Nat → Ty → Option SelSet → J → Bool
           | none => false
       | _ => false
 where
-  selConf (f : Nat) (n : Nat) (od : ObjDef) (fl : Flat) (kv : Nat × J) : Bool :=
-    kv.1 == fl.alias &&
-      (if fl.name = 0 then (match kv.2 with | .sc m => m == n | _ => false)
-       else match findField fl.name od.fields with
-        | some fd => conforms σ f fd.ty fl.sub kv.2
-        | none => false)
+  selConf (f : Nat) (n : Nat) (od : ObjDef) (fl : Flat) (j : J) : Bool :=
+    if fl.name = 0 then (match j with | .sc m => m == n | _ => false)
+    else match findField fl.name od.fields with
+      | some fd => conforms σ f fd.ty fl.sub j
+      | none => false
+  /-- response objects are unordered (thunder serialises maps): exactly one entry per merged
+  selection, found by its response key, plus the key entry -/
   objConf (f : Nat) (n : Nat) (od : ObjDef) (fls : List Flat) (kvs : List (Nat × J)) : Bool :=
     let nk := if od.key.isSome then 1 else 0
     kvs.length == fls.length + nk &&
-    (fls.zip (kvs.take fls.length)).all (fun (fl, kv) => selConf f n od fl kv) &&
+    fls.all (fun fl => match lookup fl.alias kvs with
+      | some j => selConf f n od fl j
+      | none => false) &&
     (match od.key with
-     | some _ => keyShape (kvs.drop fls.length)
+     | some _ => kvs.any isKeyEntry
      | none => true)
 
 end TM.Gql
